@@ -170,7 +170,8 @@ func (g *gen) uriGrammar(n int) {
 // all 5x3 scheme/transport combinations of hand-made URI values, IPv4 / IPv6 / name hosts (a name cannot be used with
 // DTLS offline: DialURI resolves it with the system resolver before dialling)
 func (g *gen) uriDial() {
-	hosts := []struct{ h, hint string }{{"127.0.0.1", "ip"}, {"::1", "ip"}, {"stun.example.org", "host"}}
+	hosts := []struct{ h, hint string }{{"127.0.0.1", "ip"}, {"::1", "ip"}, {"stun.example.org", "host"},
+		{"turn.other.example", "host"}, {"third.example.net", "host"}}
 	cnt := 0
 	for _, h := range hosts {
 		for s := 0; s <= 4; s++ {
